@@ -330,3 +330,25 @@ pub fn gen_batch(rng: &mut Rng, kind: u8, base: i64, max_rows: usize) -> BatchSp
     let n = if rng.chance(1, 4) { 1 } else { rng.range_usize(1, max_rows.max(1)) };
     BatchSpec { kind, rows: (0..n).map(|_| gen_row(rng, kind, base)).collect() }
 }
+
+// ------------------------------------------------------------------ budgets ----
+/// Bounds the work spent on shrinking one failing case (candidate runs and wall time).
+pub struct Budget {
+    start: std::time::Instant,
+    runs: u32,
+    max_runs: u32,
+    max_secs: u64,
+}
+impl Budget {
+    pub fn new(max_runs: u32, max_secs: u64) -> Budget {
+        Budget { start: std::time::Instant::now(), runs: 0, max_runs, max_secs }
+    }
+    /// true while another candidate run is allowed (and counts it)
+    pub fn take(&mut self) -> bool {
+        if self.runs >= self.max_runs || self.start.elapsed().as_secs() >= self.max_secs {
+            return false;
+        }
+        self.runs += 1;
+        true
+    }
+}
